@@ -180,6 +180,9 @@ type SecureChannel struct {
 	// note: we only allow a single "open" request in flight at any point in time. The mutex is held for the entire
 	// duration of the "open" request.
 	openingInstance *channelInstance
+	// openingPtrMu guards the openingInstance pointer between open(), which
+	// sets and clears it, and the goroutine that reads chunks.
+	openingPtrMu sync.Mutex
 	openingMu       sync.Mutex
 
 	// recvSeq is the sequence number of the last chunk accepted by readChunk,
@@ -537,7 +540,10 @@ func (s *SecureChannel) readChunk() (*MessageChunk, error) {
 			s.prepareServerRenewal()
 		}
 
-		if s.openingInstance == nil {
+		s.openingPtrMu.Lock()
+		opening := s.openingInstance
+		s.openingPtrMu.Unlock()
+		if opening == nil {
 			return nil, errors.Errorf("sechan: invalid state. openingInstance is nil.")
 		}
 
@@ -568,15 +574,15 @@ func (s *SecureChannel) readChunk() (*MessageChunk, error) {
 			if !ok {
 				return nil, ua.StatusBadCertificateInvalid
 			}
-			algo, err := uapolicy.Asymmetric(s.cfg.SecurityPolicyURI, s.openingInstance.sc.cfg.LocalKey, remoteKey)
+			algo, err := uapolicy.Asymmetric(s.cfg.SecurityPolicyURI, opening.sc.cfg.LocalKey, remoteKey)
 			if err != nil {
 				return nil, err
 			}
 
-			s.openingInstance.algo = algo
+			opening.algo = algo
 		}
 
-		decryptWith = s.openingInstance
+		decryptWith = opening
 	case "CLO":
 		return nil, io.EOF
 	case "MSG":
@@ -721,7 +727,9 @@ func (s *SecureChannel) open(ctx context.Context, instance *channelInstance, req
 		return err
 	}
 
+	s.openingPtrMu.Lock()
 	s.openingInstance = newChannelInstance(s)
+	s.openingPtrMu.Unlock()
 	// s.openingInstance.secureChannelID = s.secureChannelID
 	// s.openingInstance.sequenceNumber = s.sequenceNumber
 	// s.openingInstance.securityTokenID = s.securityTokenID
@@ -745,7 +753,9 @@ func (s *SecureChannel) open(ctx context.Context, instance *channelInstance, req
 				instance.sequenceNumber = s.openingInstance.sequenceNumber
 			}
 		}
+		s.openingPtrMu.Lock()
 		s.openingInstance = nil
+		s.openingPtrMu.Unlock()
 	}()
 
 	reqID := s.nextRequestID()
